@@ -13,6 +13,7 @@ def gen(rng, tier):
         G, fam = common.random_connected_graph(rng, 1, 6 if tier == "quick" else 8, large_ok=True)
         D = common.random_divisor(rng, G)
         if rng.random() < 0.12: G, D = common.thin_cut_game(rng); fam = "thincut"
+        if rng.random() < 0.15: G = common.midsize_multigraph(rng); D = common.random_divisor(rng, G); fam = "midsize"
         if rng.random() < 0.12 and G["edges"]:
             G, D = common.scale_game(rng, G, D); fam = fam + "*2^k"
         c = {"G": G, "D": D, "fam": fam, "s": rng.randrange(1 << 30)}
